@@ -138,6 +138,11 @@ def gen_cases(ctx):
         cases.append("%s %d %d %s %d %d" % (rng.choice(["CHAINS", "CHAINS", "CHAIN"]), blocks, per, ",".join(st), n, rng.below(1 << 30) + 1))
     for _ in range(ctx.pick(25, 300)):
         cases.append("POOL %d %d %d %d" % (rng.range(1, 6), rng.range(1, 5), rng.choice([0, 1, 2, rng.range(0, 300)]), rng.below(1 << 30) + 1))
+    # handlers that throw: the pool must end (abort) or handle everything, never drop the request and carry on
+    for _ in range(ctx.pick(12, 120)):
+        n = rng.choice([1, 2, 5, rng.range(0, 120)])
+        fail_at = rng.choice([0, n - 1, n // 2, rng.range(0, max(0, n - 1)), n + 5])
+        cases.append("POOLF %d %d %d %d %d" % (rng.range(1, 5), rng.range(1, 4), n, max(0, fail_at), rng.below(1 << 30) + 1))
     return cases
 
 
@@ -293,6 +298,12 @@ def check(ctx, exe, cases, with_model=True):
             m = oracle_chain(c, o)
             if m:
                 spec_fail.append(("chain" if f[0] == "CHAIN" and "s" not in "".join(x[0] for x in f[3].split(",")) else "chain:stream", c, o, m))
+        elif f[0] == "POOLF":
+            n, fail_at = int(f[3]), int(f[4])
+            exp = "ok aborted" if 0 <= fail_at < n else "ok finished handled=%d" % n
+            if not o.startswith(exp):
+                spec_fail.append(("thread-pool:failing-handler", c, o, "a handler threw on request %d of %d: expected the process to %s, got: %s" %
+                                  (fail_at, n, "be aborted" if exp == "ok aborted" else "finish", o[:200])))
         elif f[0] == "POOL":
             m = oracle_pool(c, o)
             if m:
@@ -346,14 +357,18 @@ def check(ctx, exe, cases, with_model=True):
         except vlib.ModelBroken as e:
             model_broken = str(e)
     # chains and pools: the extracted atomic-FIFO models under their own seed-driven schedules must deliver the same result
-    cp = [(c, o) for c, o in zip(cases, iout) if c.split()[0] in ("CHAIN", "CHAINS", "POOL") and o.startswith("ok ")]
+    cp = [(c, o) for c, o in zip(cases, iout) if c.split()[0] in ("CHAIN", "CHAINS", "POOL", "POOLF") and o.startswith("ok ")]
     if with_model and cp and model_broken is None:
         try:
             model = vlib.ocaml_model("C17")
             mo = vlib.run_lines(model, [c for c, _ in cp])
             for (c, o), m in zip(cp, mo):
-                di = dict(x.split("=") for x in o.split()[1:])
-                dm = dict(x.split("=") for x in m.split()[1:]) if m.startswith("ok") else {}
+                di = dict(x.split("=") for x in o.split()[1:] if "=" in x)
+                dm = dict(x.split("=") for x in m.split()[1:] if "=" in x) if m.startswith("ok") else {}
+                if c.startswith("POOLF"):
+                    if " ".join(o.split()[:2]) != " ".join(m.split()[:2]) or (o.startswith("ok finished") and o.split()[2] != m.split()[2]):
+                        mismatches.append((c, c, o, m))
+                    continue
                 keys = ("count", "hash", "head") if c.startswith("CHAIN") else ("handled", "dup", "miss", "stray")
                 if not m.startswith("ok") or any(di.get(k) != dm.get(k) for k in keys):
                     mismatches.append((c, c, o, m))
